@@ -225,6 +225,30 @@ def reparent_sequence(ctx):
             ctx.ctr("reparent_to_xml_raised")
     ctx.ctr("reparent_moves", n)
     api_histories(ctx)
+    flat_forms(ctx)
+
+
+def flat_forms(ctx):
+    """The legacy 'flat' setting lifts the children of every group to the top of the instance: names that were unique per group may collide there."""
+    for i in range(24):
+        rng = ctx.rng("flat", i)
+        same = i % 2 == 0
+        f = gen.simple_form([("begin group", "g1", {"label": "G1"}, [("text", "q" if same else "qa", {"label": "A"})]),
+                             ("begin group", "g2", {"label": "G2"}, [("integer", "q" if same else "qb", {"label": "B"}), ("begin repeat", "r", {"label": "R"}, [("text", "inr", {"label": "I"})])] if i % 4 < 2 else
+                              [("integer", "q" if same else "qb", {"label": "B"})])],
+                            settings={"flat": rng.choice(["yes", "true", "1"])})
+        o = drive.convert_form(f)
+        ctx.case(sig=f"flat|{same}|{i % 4 < 2}")
+        ctx.ctr("flat_forms")
+        if not o.ok:
+            ctx.ctr("flat_rejected")
+            continue
+        try:
+            p = xf.Parsed(o.xform)
+        except xf.XFError:
+            continue
+        for key, what in invariants.c02_closure(p):
+            ctx.viol(f"flat-setting:{key}", f"[flat=yes, same name in two groups={same}] {what}", common.witness(f, klass="flat"))
 
 
 def api_histories(ctx):
